@@ -82,6 +82,20 @@ def fullfact(args):
         rows = g.generate()
         lv = [[lo, (lo + hi) / 2.0, hi] if center else [lo, hi] for lo, hi in box]
         _fullfact_checks(ctx, rows, lv)
+        # multi-step: same generator object, centre option toggled and a bound changed in place
+        g.init(not center)
+        lo0, hi0 = box[0]
+        params[0]['bounds'][0] = lo0 - 1.0
+        box2 = [(lo0 - 1.0, hi0)] + list(box[1:])
+        lv2 = [[lo, (lo + hi) / 2.0, hi] if not center else [lo, hi] for lo, hi in box2]
+        rows2 = g.generate()
+        tot = 1
+        for l in lv2:
+            tot *= len(l)
+        ctx.check('fullfact-after-reinit-row-count', len(rows2) != tot)
+        if len(rows2) == tot:
+            ctx.check('fullfact-after-reinit-uses-new-bound', Not(Or(*[r[0] == lo0 - 1.0 for r in rows2])))
+            ctx.check('fullfact-after-reinit-levels', Or(*[Not(Or(*[r[j] == v for v in lv2[j]])) for r in rows2 for j in range(n)]))
     return body
 
 
@@ -99,6 +113,15 @@ def fullfact_levels(args):
         g.init([list(v) for v in vals])
         rows = g.generate()
         _fullfact_checks(ctx, rows, vals)
+        # multi-step: the same generator object gets other level lists
+        if all(k <= 8 for k in counts):
+            vals2 = [list(v[:-1]) if len(v) > 2 else list(v) for v in vals]
+            g.init([list(v) for v in vals2])
+            rows2 = g.generate()
+            tot = 1
+            for v in vals2:
+                tot *= len(v)
+            ctx.check('fullfact-levels-after-reinit-row-count', len(rows2) != tot)
     return body
 
 
